@@ -35,6 +35,10 @@ pub struct C08Case {
     pub probes: Vec<String>,
     #[serde(default)]
     pub family: String,
+    /// `expr` is no regular expression on its own (a `)` without its `(`), whatever it becomes
+    /// when scrut wraps it: a `regex` modifier has to fail
+    #[serde(default)]
+    pub regex_malformed: bool,
 }
 
 fn line_of(case: &C08Case) -> String {
@@ -264,6 +268,41 @@ fn regex_cause(expr: &str) -> &'static str {
 }
 
 /// grammar clause: Ok(buckets) or Err((signature prefix without the structural cause, detail))
+/// a `)` without its `(`, outside of character classes and escapes: no regular expression,
+/// whatever it becomes between `^(?:` and `)$`
+fn closes_before_it_opens(expr: &str) -> bool {
+    let mut depth = 0i32;
+    let mut in_class = false;
+    let mut cs = expr.chars().peekable();
+    while let Some(c) = cs.next() {
+        match c {
+            '\\' => {
+                cs.next();
+            }
+            '[' if !in_class => {
+                in_class = true;
+                // a `]` directly behind `[` or `[^` is a member of the class
+                if cs.peek() == Some(&'^') {
+                    cs.next();
+                }
+                if cs.peek() == Some(&']') {
+                    cs.next();
+                }
+            }
+            ']' if in_class => in_class = false,
+            '(' if !in_class => depth += 1,
+            ')' if !in_class => {
+                depth -= 1;
+                if depth < 0 {
+                    return true;
+                }
+            }
+            _ => {}
+        }
+    }
+    false
+}
+
 fn grammar(case: &C08Case, scan: &Scan, parsed: &Result<Expectation, String>) -> Result<Vec<String>, (String, String)> {
     let line = line_of(case);
     let mut buckets: Vec<String> = vec![];
@@ -293,6 +332,18 @@ fn grammar(case: &C08Case, scan: &Scan, parsed: &Result<Expectation, String>) ->
             let (mut may_err, want_expr) = modifier_expectations(case, expr, kind);
             if *kind == "regex" && *expr != case.expr {
                 may_err = true;
+            }
+            if *kind == "regex" && closes_before_it_opens(expr) {
+                return match r {
+                    Err(_) => {
+                        buckets.push("grammar:unbalanced-regex-rejected".into());
+                        Ok(buckets)
+                    }
+                    Ok(_) => Err((
+                        "C08/grammar/modifier/accepted-malformed/regex".into(),
+                        format!("`{}`: the expression is no regular expression on its own (a `)` without its `(`), it has to be refused", show(line.as_bytes())),
+                    )),
+                };
             }
             match r {
                 Err(e) => {
@@ -476,6 +527,18 @@ fn rand_modifier(rng: &mut Rng) -> String {
 }
 
 fn gen_case(rng: &mut Rng) -> C08Case {
+    if rng.chance(1, 80) {
+        // unbalanced on its own, balanced between `^(?:` and `)$`
+        let expr = *rng.pick(&["a)|(b", "x)(y", "foo)|(bar", ")(", "a)b(c", "[0-9]+)|(x"]);
+        return C08Case {
+            expr: expr.into(),
+            suffix: format!(" ({}{})", rng.pick(&["regex", "re"]), rng.pick(QUANTS)),
+            regex_wellformed: false,
+            probes: vec![],
+            family: "regex-unbalanced".into(),
+            regex_malformed: true,
+        };
+    }
     let fam = rng.weighted(&[30, 12, 10, 12, 18, 8, 3, 5, 8]);
     let w = [45u32, 15, 12, 18, 10];
     let mut regex_wellformed = false;
@@ -561,6 +624,7 @@ fn gen_case(rng: &mut Rng) -> C08Case {
         regex_wellformed,
         probes,
         family: family.into(),
+        regex_malformed: false,
     }
 }
 
